@@ -25,7 +25,7 @@ DEEP_TAGS = {"fuse", "reshape", "linalg", "contract"}
 DEEP_NAMES = {"conj", "dagger", "sync_charges", "multiply_diagonal(v-missing,0)", "x*x", "expand_dims(0)", "copy;fill_missing_blocks", "phase_flip(0)", "align_axes(x,x.conj(),((0,),(0,)))"}
 REAL_OF = {"float32": "float32", "float64": "float64", "complex64": "float32", "complex128": "float64"}
 META = {
-    "rule": "dtypes float32/float64/complex64/complex128 x arrays (abelian, fermionic with pending signs, block vectors; n<=3; sparsity patterns with missing sectors) x every catalogue "
+    "rule": "dtypes float32/float64/complex64/complex128 x arrays (abelian, fermionic with pending signs, block vectors; n<=3 plus (index, conjugate index) matrices with absent sectors; sparsity patterns with missing sectors) x every catalogue "
     "operation at depth 1 and, from arrays with n<=2, every core operation on every result of the structure-creating first operations (fuse, reshape, contraction, decompositions, conj/dagger, sync_charges, fill_missing_blocks, ...: depth 2 reaches unfuse / reshape-back / contraction of fused and truncated results); "
     "non-trivial = call on a single-precision or complex operand that returns at least one array block",
     "bounds": {"quick": "depth 1 all roots (n<=3 and 4-index arrays over the pair menu: the smallest arrays whose fused blocks can have holes), depth 2 from n<=2", "thorough": "depth 2 from all roots"},
@@ -207,6 +207,10 @@ def roots(ctx, sym, ferm):
         kw = dict(ferm=True, phases="probe0", label=3) if ferm else {}
         for d in U.arrays(sym, n, menu, "a", charges, sp, **kw):
             out.append((n, d))
+    # (index, conjugate index) matrices, also with absent sectors: eigh / solve / trace apply to the root itself
+    kw = dict(ferm=True, phases="probe0", label=3) if ferm else {}
+    for d in U.pair_arrays(sym, "two", "le1", **kw):
+        out.append((2, d))
     return out
 
 
